@@ -129,3 +129,50 @@ Theorem C10_dimacs_whole_parse_buffer : forall fuel k maxd ih (sr : source) (c n
 Proof. exact parse_dimacs_buf_init. Qed.
 Print Assumptions C10_dimacs_whole_parse_buffer.
 
+
+(* ------------------------------------------------------------------ *)
+(* Instances for the other parsers (Buf2.v): BTOR2 next_line and a whole BTOR2 parse, ASCII AIGER entry readers, the binary
+   and-gate section (unconditional: 4C + 16 for any number of gates), the solver log.  n = bytes one call consumes (for
+   BTOR2 this includes a run of blank lines that skip_whitespace looks over before advancing), L = longest line. *)
+From Flussab Require Import Btor2 Btor2Safe Aiger AigerSafe Buf2.
+
+Theorem C10_btor2_line_call_buffer : forall fuel lr s v C n l lr' s' m,
+  Rel s v -> KB fuel lr v -> BufOK C (n + 1) s ->
+  crun (next_line fuel lr) s = CDone (Ok (Some l), lr') s' ->
+  g_consumed s' - g_consumed s <= n ->
+  PeekBound (n + 1) (next_line fuel lr) s /\
+  snd (crun_buf (next_line fuel lr) s m) <= N.max m (4 * C + n + 1) /\
+  BufOK C (n + 1) s' /\
+  exists v', Rel s' v' /\ KB fuel lr' v' /\ vS v' = vS v.
+Proof. exact btor2_next_line_buf. Qed.
+Print Assumptions C10_btor2_line_call_buffer.
+
+Theorem C10_btor2_whole_parse_buffer : forall fuel (sr : source) (c n L : N),
+  NoLie (events sr) -> 1 <= c ->
+  Forall (fun b => b < 256) (fst (stream_of sr)) -> nlen (fst (stream_of sr)) < 2 ^ 62 ->
+  (length (fst (stream_of sr)) < fuel)%nat ->
+  LinesWithin L (fst (stream_of sr)) ->
+  LineSpans fuel n fuel lrs_init (set_chunk (reader_init sr) c) ->
+  snd (crun_buf (parse_btor2 fuel lrs_init) (set_chunk (reader_init sr) c) 0) <= 4 * c + (n + L + 1).
+Proof. exact parse_btor2_buf_init. Qed.
+Print Assumptions C10_btor2_whole_parse_buffer.
+
+Theorem C10_aig_gate_section_buffer : forall fuel maxc C,
+  forall cnt left code acc lr s v m items st' lr' s',
+  code < W64 -> Rel s v -> KM fuel (vS v) lr v -> BufOK C 16 s ->
+  crun (sloop cnt (aig_and maxc) left code acc lr) s = CDone ((items, st', None), lr') s' ->
+  snd (crun_buf (sloop cnt (aig_and maxc) left code acc lr) s m) <= N.max m (4 * C + 16) /\ BufOK C 16 s'.
+Proof. exact aig_and_section_buf. Qed.
+Print Assumptions C10_aig_gate_section_buffer.
+
+Theorem C10_log_whole_parse_buffer : forall fuel maxd iu (sr : source) (c n L : N),
+  NoLie (events sr) -> 1 <= c ->
+  Forall (fun b => b < 256) (fst (stream_of sr)) -> nlen (fst (stream_of sr)) < 2 ^ 62 ->
+  (length (fst (stream_of sr)) < fuel)%nat ->
+  LinesWithin L (fst (stream_of sr)) ->
+  LogSpans fuel n maxd iu fuel {| sat := None; assignment := []; started := false; finished := false |} lrs_init
+           (set_chunk (reader_init sr) c) ->
+  snd (crun_buf (parse_log fuel maxd iu lrs_init) (set_chunk (reader_init sr) c) 0) <= 4 * c + (n + L + 1).
+Proof. exact parse_log_buf_init. Qed.
+Print Assumptions C10_log_whole_parse_buffer.
+
